@@ -46,6 +46,11 @@ normalisation `ninv = 1/n`. -/
 def modulateDft {n : Nat} (pw pwInv : Nat → α) (ninv : α) (m x : Fin n → α) : Fin n → α :=
   fun i => ninv * dftWith pwInv (fun k => dftWith pw x k * m k) i
 
+/-- The impulse response of `modulateDft`: `h t = ninv · Σ_k m k · pwInv (k·t mod n)`, the inverse
+transform of the transfer function. -/
+def kernelOf {n : Nat} (pwInv : Nat → α) (ninv : α) (m : Fin n → α) : Fin n → α :=
+  fun t => ninv * dftWith pwInv m t
+
 /-- A length-preserving filter on lists from a family of filters on `Fin n → α`. -/
 def filterList (F : (n : Nat) → (Fin n → α) → Fin n → α) (l : List α) : List α :=
   List.ofFn (F l.length fun i => l[i])
